@@ -13,6 +13,8 @@ Part C  what the library's writers emit is the Spec encoding of exactly the reco
         timestamps, null ≠ empty, headers), for the protocol path and for the Conn path, plain AND compressed
         (abstract compressor with dec∘comp = id), v1 and v2; the computed sizes are the actual lengths; D6: the pre-repair timestamp-delta formula is wrong (counterexample).
 Part D  pages: refcount/pool invariant over all op sequences; a page with a live count is never recycled.
+Part G  the page buffer's DATA path (Write / WriteAt / ReadAt / scan / Truncate / pageRef reads through the index
+        arithmetic of contiguousPages) behaves like one flat byte string (`pagebuffer_*`), tied by op `pbuf`.
 
 Part F  the Client.Fetch-path DECODER (Model/RecordReader: readFromVersion2, readMessage/readFromVersion1,
         RecordSet.ReadFrom, RecordStream) returns on every valid response what the reference decoder returns
@@ -32,6 +34,7 @@ import KafkaVerif.Lemmas.RecordReader
 import KafkaVerif.Props.C02
 import KafkaVerif.Lemmas.ByteTokens
 import KafkaVerif.Lemmas.ConnReader
+import KafkaVerif.Lemmas.PageBuffer
 import KafkaVerif.Gen.RecordConsts
 import KafkaVerif.Gen.RecordLayout
 
@@ -531,5 +534,50 @@ theorem pages_safe (pre es : List PEvent) (s : PState) (h : run init pre = some 
     ∀ s', run s es = some s' → (∀ k, k ≤ es.length → ∀ sk, run s (es.take k) = some sk → p ∈ sk.held) →
       s'.ver p = s.ver p :=
   Model.Pages.pages_safe pre es s h p hp
+
+/-! ## Part G — the page buffer's data path (protocol/buffer.go: pageBuffer, contiguousPages, page, pageRef)
+
+The bytes of a request / record set / decoded batch live in 64 KiB pages and are addressed through index arithmetic
+(`indexOf`, `slice`, `page.slice`).  `Model/PageBuffer` follows that arithmetic; these theorems say it is invisible:
+the buffer behaves like ONE flat byte string, for every page size > 0, every content and every offset — across any
+number of page boundaries.  `Contig` (all pages but the last are full) is the invariant `Write`, `WriteAt` and
+`Truncate` maintain from the empty buffer; the page size is the one extracted from buffer.go. -/
+
+open Model.PageBuffer in
+/-- `Write` appends; `Truncate(n)` keeps the first `n` bytes; `WriteAt` inside the written part (how sizes, counts
+and checksums are back-patched) replaces exactly its range; all three keep the pages contiguous -/
+theorem pagebuffer_writes (P : Nat) (hP : 0 < P) (pb : PB) (hc : Contig P pb.pages) (b : Bytes) (n off : Nat)
+    (hbase : pb.base ≤ off) (hfit : off + b.length ≤ pb.base + (flat pb).length) :
+    (flat (write P pb b) = flat pb ++ b ∧ Contig P (write P pb b).pages) ∧
+    (flat (truncate pb n) = (flat pb).take n ∧ Contig P (truncate pb n).pages) ∧
+    (flat (writeAt P pb b off) = patch (flat pb) (off - pb.base) b ∧ Contig P (writeAt P pb b off).pages) :=
+  ⟨⟨(write_spec P hP pb b hc).1, (write_spec P hP pb b hc).2.1⟩, truncate_spec P pb n hc,
+   writeAt_spec P hP pb b off hc hbase hfit⟩
+
+open Model.PageBuffer in
+/-- `scan(begin, end)` (what the CRC and `WriteTo` see) and `ReadAt(buf, off)` return the corresponding bytes of the
+flat content, whatever page boundaries lie in between -/
+theorem pagebuffer_reads (P : Nat) (hP : 0 < P) (pb : PB) (hc : Contig P pb.pages) (b e off n : Nat) (hbe : b ≤ e)
+    (hbase : pb.base ≤ off) :
+    scan P pb b e = ((flat pb).take (e - pb.base)).drop (b - pb.base) ∧
+    readAt P pb off n = ((flat pb).drop (off - pb.base)).take n :=
+  ⟨scan_eq P hP pb hc b e hbe, readAt_eq P hP pb hc off n hbase⟩
+
+open Model.PageBuffer in
+/-- a `pageRef` to `[begin, end)` (a decoded key or value) reads exactly the bytes of its range — its pages start at
+page `indexOf(begin)`, not at page 0, and `indexOf` compensates with `pages[0].offset` -/
+theorem pagebuffer_ref_read (P : Nat) (hP : 0 < P) (pb : PB) (hc : Contig P pb.pages) (hb0 : pb.base = 0)
+    (b e off n : Nat) (hbe : b ≤ e) (he : e ≤ (flat pb).length) :
+    refReadAt P (refTo P pb b e) b (e - b) off n = (((flat pb).take e).drop (b + off)).take n :=
+  refReadAt_eq P hP pb hc hb0 b e off n hbe he
+
+/-- the extracted page size is positive (premise `0 < P` of the three theorems above for the real constant) -/
+theorem gen_page_size : 0 < Gen.RecordConsts.pageSize := by decide
+
+open Model.PageBuffer in
+example : Contig 4 [[1, 2, 3, 4], [5, 6, 7, 8], [9]] ∧
+    scan 4 ⟨0, [[1, 2, 3, 4], [5, 6, 7, 8], [9]]⟩ 3 9 = [4, 5, 6, 7, 8, 9] ∧
+    flat (writeAt 4 ⟨0, [[1, 2, 3, 4], [5, 6, 7, 8], [9]]⟩ [0, 0, 0] 3) = [1, 2, 3, 0, 0, 0, 7, 8, 9] :=
+  ⟨⟨rfl, rfl, by simp [Contig]⟩, by decide, by decide⟩
 
 end KV.Props.C05
